@@ -458,8 +458,44 @@ def _apply_ref(cur, ref):
     return cur + ref
 
 
-def fam_barrier_sync(prop, tier):
+def _barrier_operandless_harnesses(prop):
+    """C03: a `~` in front of an operator that takes NO operand (`^^>` flatten, `|n>` enumerate) starts a step like any other"""
     out = []
+    E = lambda i, s, p: "ev(code(K_CALL, %d, %d, %d));" % (i, s, p)
+    progs = [
+        ("flatten", "    let a: u8 = kani::any(); let c: u8 = kani::any();\n",
+         "join! { Some(Some(a)) ~^^> |> |x: u8| { %s x.wrapping_add(1) }, Some(c) |> |x: u8| { %s x.wrapping_add(2) } ~|> |x: u8| { %s x.wrapping_add(3) } }" % (E(0, 1, 1), E(1, 0, 1), E(1, 1, 1)),
+         "(Option<u8>, Option<u8>)",
+         ["let s1 = Some(c).map(|x: u8| { %s x.wrapping_add(2) });" % E(1, 0, 1),
+          "let e0 = Some(Some(a)).flatten().map(|x: u8| { %s x.wrapping_add(1) });" % E(0, 1, 1),
+          "let e1 = s1.map(|x: u8| { %s x.wrapping_add(3) });" % E(1, 1, 1)], "(e0, e1)", 0),
+        ("enumerate", "    let a: [u8; 2] = [kani::any(), kani::any()]; let c: u8 = kani::any();\n",
+         "join! { a.into_iter() ~|n> |> |(i, x): (usize, u8)| { %s x.wrapping_add(i as u8) } ^@ 0u8, |acc: u8, x: u8| acc.wrapping_mul(3).wrapping_add(x), Some(c) |> |x: u8| { %s x.wrapping_add(2) } ~|> |x: u8| { %s x.wrapping_add(3) } }" % (E(0, 1, 1), E(1, 0, 1), E(1, 1, 1)),
+         "(u8, Option<u8>)",
+         ["let s1 = Some(c).map(|x: u8| { %s x.wrapping_add(2) });" % E(1, 0, 1),
+          "let e0 = a.into_iter().enumerate().map(|(i, x): (usize, u8)| { %s x.wrapping_add(i as u8) }).fold(0u8, |acc: u8, x: u8| acc.wrapping_mul(3).wrapping_add(x));" % E(0, 1, 1),
+          "let e1 = s1.map(|x: u8| { %s x.wrapping_add(3) });" % E(1, 1, 1)], "(e0, e1)", 4),
+        ("flatten_try", "    let a: u8 = kani::any(); let c: u8 = kani::any();\n",
+         "try_join! { Some(Some(a)) ~^^> ~|> |x: u8| { %s x.wrapping_add(1) }, Some(c) |> |x: u8| { %s x.wrapping_add(2) } ~?> |x: &u8| { %s *x > 9 } ~|> |x: u8| { %s x } }" % (E(0, 2, 1), E(1, 0, 1), E(1, 1, 1), E(1, 2, 1)),
+         "Option<(u8, u8)>",
+         ["let s1 = Some(c).map(|x: u8| { %s x.wrapping_add(2) });" % E(1, 0, 1),
+          "let f0 = Some(Some(a)).flatten();",
+          "let s1b = s1.filter(|x: &u8| { %s *x > 9 });" % E(1, 1, 1),
+          "let res = if f0.is_none() || s1b.is_none() { None } else { let e0 = f0.map(|x: u8| { %s x.wrapping_add(1) }); let e1 = s1b.map(|x: u8| { %s x }); Some((e0.unwrap(), e1.unwrap())) };" % (E(0, 2, 1), E(1, 2, 1))], "res", 0),
+    ]
+    for (name, inp, prog, rty, ref, exp, uw) in progs:
+        b = inp + "    let r: %s = %s;\n    reference_mode();\n" % (rty, prog)
+        for l in ref:
+            b += "    %s\n" % l
+        b += "    let exp: %s = %s;\n    assert!(r == exp, \"C03: value differs from the staged reference\");\n" % (rty, exp)
+        b += trace_eq(6)
+        hn = "%s_barrier_operandless_%s" % (prop.lower(), name)
+        out.append(Harness(hn, harness_fn(hn, b, unwind=uw or None), prog, note="deferred operand-less operator"))
+    return out
+
+
+def fam_barrier_sync(prop, tier):
+    out = _barrier_operandless_harnesses(prop)
     if tier == "quick":
         profs = [(2,), (3,), (2, 2), (1, 2), (2, 1), (3, 2), (2, 3), (1, 2, 2), (2, 1, 2), (3, 2, 1), (1, 3, 2), (2, 2, 2)]
     else:
